@@ -7,7 +7,7 @@ pk = sys.argv[1:] or ['./...']
 env = dict(os.environ, GOFLAGS='-mod=mod', GOPROXY='off')
 env.pop('GOSUMDB', None); env.pop('GOTOOLCHAIN', None)
 p = subprocess.Popen(['go', 'test', '-json', '-vet=off', '-count=1', '-timeout', '25m'] + pk,
-                     cwd='/repo', env=env, stdout=subprocess.PIPE, stderr=subprocess.STDOUT, text=True)
+                     cwd=os.environ.get('BASELINE_REPO', '/repo'), env=env, stdout=subprocess.PIPE, stderr=subprocess.STDOUT, text=True)
 res = {}; pkgs = set()
 for line in p.stdout:
     try: ev = json.loads(line)
@@ -17,7 +17,7 @@ for line in p.stdout:
         res[ev['Package'] + '::' + ev['Test']] = ev['Action']
 p.wait()
 # the containerd tests rewrite tracked fixtures in place (finding 16); restore them
-subprocess.run(['git', '-C', '/repo', 'checkout', '--', 'extractor/filesystem/containers/containerd/testdata'],
+subprocess.run(['git', '-C', os.environ.get('BASELINE_REPO', '/repo'), 'checkout', '--', 'extractor/filesystem/containers/containerd/testdata'],
                stdout=subprocess.DEVNULL, stderr=subprocess.DEVNULL)
 b = json.load(open('/root/.vp/BASELINE.json'))
 want = [t for t in b['stable_pass'] if t.split('::')[0] in pkgs]
